@@ -17,7 +17,7 @@ def part_step(ctx):
     ctx.add_tlc(r, "EMStep.tla: guarded algorithm = declarative step (all instances)")
     ctx.tlc_violation(r, "EMStep design")
     items = []
-    for V, L, R, PM in ctx.pick([(2, 4, 2, 2)], [(2, 5, 2, 2), (3, 3, 2, 1)]):
+    for V, L, R, PM in ctx.pick([(2, 4, 2, 2)], [(2, 5, 2, 2)]):
         r = tlc.run_tlc("EMStep", dict(V=V, MaxLen=L, R=R, PMax=PM, GUARDED=True, EMIT=True), invariants=["EmitInv"], workers=1,
                         timeout=3000, heap="6g", simulate=None)
         ctx.add_tlc(r, "EMStep.tla emission V=%d L<=%d" % (V, L))
